@@ -338,6 +338,8 @@ def ev(ast, c):
             raise Unspecified("earlier selection is unspecified")
         return v
     if k == "raw":
+        if ast[1] == "-0":
+            return 0          # the integer zero written with a sign
         raise Unspecified("raw text")
     name = ast[1]
     args = ast[2]
